@@ -471,6 +471,7 @@ def estimate_R0(G, tau = None, gamma = None, transmissibility = None):
 def _dSIS_individual_based_(Y, t, G, nodelist, trans_rate_fxn, rec_rate_fxn):
     N = len(nodelist)
     dY = np.zeros(N)
+    index_of_node = {node:i for i, node in enumerate(nodelist)}
     for index, (node, Yi) in enumerate(zip(nodelist,Y)):
         #This would probably be faster if it were done as a
         #matrix multiplication, but then I'd need to have
@@ -479,7 +480,7 @@ def _dSIS_individual_based_(Y, t, G, nodelist, trans_rate_fxn, rec_rate_fxn):
         #numpy sparse matrices.  Perhaps that works?
         #No plan to do premature optimization.  Let's get it
         #working and then see if it's slow.
-        dY[index] = sum(trans_rate_fxn(node,nbr)*(1-Y[node])*Y[nbr] 
+        dY[index] = sum(trans_rate_fxn(node,nbr)*(1-Yi)*Y[index_of_node[nbr]] 
                             for nbr in G.neighbors(node)) - rec_rate_fxn(node)*Yi
     return dY
 
